@@ -523,6 +523,16 @@ def runner_loop(lib, cases, start, wfd, alone=False, dump_file=None, logbase=Non
     w.close()
 
 
+def _cpu_s(pid):
+    """CPU seconds (user + system) the process has consumed so far; -1 if it is gone."""
+    try:
+        with open(f"/proc/{pid}/stat") as f:
+            rest = f.read().rsplit(")", 1)[1].split()
+        return (int(rest[11]) + int(rest[12])) / os.sysconf("SC_CLK_TCK")
+    except Exception:
+        return -1.0
+
+
 def _rss_kb(pid):
     try:
         with open(f"/proc/{pid}/statm") as f:
@@ -584,6 +594,7 @@ class Server:
         buf = b""
         started = None
         last = time.monotonic()
+        last_cpu = max(0.0, _cpu_s(pid))
         reason = "exit"
         self.storm_text = ""
         log_base = self._logsize(pid)
@@ -595,6 +606,7 @@ class Server:
                 if not chunk:
                     break
                 last = now
+                last_cpu = max(last_cpu, _cpu_s(pid))
                 buf += chunk
                 *lines, buf = buf.split(b"\n")
                 for ln in lines:
@@ -616,8 +628,14 @@ class Server:
                 except OSError:
                     pass
                 break
-            if now - last > silent_limit:
+            # "silent" is decided on the CPU time the runner burned since its last output, not on wall-clock time: a
+            # decoder that loops forever burns CPU, a runner starved by a loaded machine does not
+            cpu = _cpu_s(pid)
+            if cpu >= 0 and cpu - last_cpu > silent_limit:
                 reason = "silent"
+                break
+            if now - last > 60 * silent_limit:
+                reason = "starved"          # generous wall-clock watchdog: neither a finding nor a verdict
                 break
             if started is not None and _rss_kb(pid) > RSS_CAP_KB:
                 reason = "rss"
@@ -664,6 +682,10 @@ class Server:
         if reason == "exit":
             self.results[idx] = self.death(status, log)
             return
+        if reason == "starved":
+            self.stats["starved_runs"] = self.stats.get("starved_runs", 0) + 1
+            self.problems.append(f"case {idx}: runner got no CPU for {60 * ALONE_LIMIT:.0f}s of wall-clock time (machine overloaded)")
+            return
         if reason == "storm":
             self.results[idx] = {"died": "storm", "asan": self.storm_text}
             return
@@ -685,6 +707,14 @@ class Server:
             status, started, reason = self.monitor(pid, rfd, SILENT_LIMIT)
             log = _read_asan_log(self.logbase, pid)
             done_upto = max([k for k in self.results if k >= i], default=i - 1)
+            if reason == "starved":
+                # no CPU for minutes: the machine is overloaded; resume behind what was finished, give up after 3 times
+                self.stats["starved_runs"] = self.stats.get("starved_runs", 0) + 1
+                if self.stats["starved_runs"] > 3:
+                    self.problems.append(f"runner starved of CPU {self.stats['starved_runs']} times (last after case {done_upto})")
+                    break
+                i = done_upto + 1
+                continue
             if reason == "exit" and started is None:
                 if os.WIFEXITED(status) and os.WEXITSTATUS(status) == 0:
                     break
